@@ -63,15 +63,20 @@ def main():
 # ----------------------------------------------------------------------------- parent side
 
 def spawn(progs):
-    """start a fresh interpreter (same PYTHONPATH, same hash seed) on the given programs"""
+    """start a fresh interpreter (same PYTHONPATH, a DIFFERENT string-hash seed: names must not depend on
+    set / hash order either) on the given programs"""
     fin = tempfile.TemporaryFile(mode="w+")
     for p in progs:
         fin.write(json.dumps({k: v for k, v in p.items() if not k.startswith("_")}) + "\n")
     fin.flush()
     fin.seek(0)
     fout = tempfile.TemporaryFile(mode="w+")
-    proc = subprocess.Popen([sys.executable, "-m", "ekw.c14_fresh"], stdin=fin, stdout=fout, stderr=subprocess.DEVNULL,
-                            env=dict(os.environ))
+    env = dict(os.environ)
+    try:
+        env["PYTHONHASHSEED"] = str((int(env.get("PYTHONHASHSEED", "0")) + 1) % 4294967295)
+    except ValueError:
+        env["PYTHONHASHSEED"] = "1"
+    proc = subprocess.Popen([sys.executable, "-m", "ekw.c14_fresh"], stdin=fin, stdout=fout, stderr=subprocess.DEVNULL, env=env)
     return {"proc": proc, "fin": fin, "fout": fout, "n": len(progs)}
 
 
